@@ -91,6 +91,21 @@ MISSED_AT_FIRST = {
     'C16-8': 'missed: the MetaComposer oracle only named a process; overrides configured on a held composer now name processes, steps, nested steps and a step inside a compartment that also holds a process - which uncovered D56',
     'C17-8': 'missed: assoc_path only wrote scalars; a third of the written values are dictionaries (they replace the dictionary at the path)',
     'C19-8': 'missed: the timeline always came from the process parameters; entry experiment passes it as a setting of composite_in_experiment (run length = latest event time)',
+    'C01-9': 'caught by C08 at first, not by C01: nothing related the shared flag (updater set) to the updates that set it; oracle flag_follows_updates',
+    'C03-9': 'missed: no emitted variable was called time; a root-level variable of that name added to the schedule workload',
+    'C04-9': 'reverts part of D59; caught by C12 at first, not by C04: the permutation class now has a store declared with a branch-level _emit by one process and further variables in and below it by another (which uncovered D67)',
+    'C06-9': 'reverts D61; caught by C07 and C15 at first, not by C06 (it judged reads and writes on the hierarchy as built): the glob children named in the initial state must now exist at the nodes the sub-topology wires them to',
+    'C07-9': 'missed: every viewer used glob ports; a viewer that declares the two initial cells by name added (one is deleted / moved / divided, the other must still be shown)',
+    'C08-9': 'missed: a dict_value update never added an entry and changed a field of it in the same update',
+    'C09-9': 'an engine-side change; caught by C10 and C01 at first, not by C09 (Store level): C09 got a family that runs C10\'s workload and is judged on structural_ops_carried_out and the cells\' ledgers',
+    'C10-9': 'missed: every deletion named one key; operation delete_sub deletes the nested sub-compartment of a cell by a path of two keys',
+    'C11-9': 'missed: the set_value divider was configured with a number; values that are themselves sequences / dictionaries added',
+    'C12-9': 'caught by C14 at first, not by C12: no emitted variable held an array with units and two dimensions',
+    'C13-9': 'written against commit 10b0514; on the current tree it no longer breaks the property (D66 takes the front entry of a moved process along before the changed line is reached): its own demonstration passes with the change applied',
+    'C14-9': 'missed: containers were exact built-in types; subclasses of list and dict (OrderedDict, defaultdict) and numpy strings added',
+    'C16-9': 'missed: flow steps were never listed among the processes; two order-sensitive flow steps (the dependent one declared first) are now generated there',
+    'C17-9': 'missed: no leaf held None; None leaves added (get_in with a non-None default must return the stored None)',
+    'C19-9': 'missed: event values were scalars and strings; family field (one array object listed in several events while another process accumulates on the variable, compared with a run that lists a copy per event)',
     'C19-4': 'missed: one update() whose length is a multiple of the timestep; a third of the cases now make 2-4 update() calls that cut ticks short',
 }
 
